@@ -154,11 +154,14 @@ pub struct RareSeed {
     pub tags: Vec<String>,
 }
 
-pub fn rare_keygen_seeds(ctx: &Ctx, p: &refimpl::Params, n_scan: usize) -> Vec<RareSeed> {
+pub fn rare_keygen_seeds(ctx: &Ctx, p: &refimpl::Params, n_scan: usize) -> Vec<RareSeed> { rare_keygen_seeds_mode(ctx, p, n_scan, false) }
+
+/// `ctest` = predict the events of the crate's constant-time test mode (samplers never reject)
+pub fn rare_keygen_seeds_mode(ctx: &Ctx, p: &refimpl::Params, n_scan: usize, ctest: bool) -> Vec<RareSeed> {
     use crate::util::{par_map, unhex, Prng};
     let work = ctx.fixtures.parent().map_or_else(|| std::path::PathBuf::from("/verif"), |x| x.to_path_buf()).join("target").join("work");
     let _ = std::fs::create_dir_all(&work);
-    let cache = work.join(format!("rare-keygen-{}-{}-{}.json", p.set, ctx.seed, n_scan));
+    let cache = work.join(format!("rare-keygen{}-{}-{}-{}.json", if ctest { "-ctest" } else { "" }, p.set, ctx.seed, n_scan));
     if let Ok(text) = std::fs::read_to_string(&cache) {
         if let Ok(v) = serde_json::from_str::<Value>(&text) {
             if let Some(a) = v.as_array() {
@@ -173,7 +176,9 @@ pub fn rare_keygen_seeds(ctx: &Ctx, p: &refimpl::Params, n_scan: usize) -> Vec<R
         for _ in 0..n_scan / shards {
             let xi = g.arr32();
             refimpl::events_reset();
+            refimpl::set_ctest(ctest);
             let _ = refimpl::keygen_internal(p, &xi);
+            refimpl::set_ctest(false);
             let e = refimpl::events_take();
             let mut tags = Vec::new();
             if e.t_wrap_high > 0 { tags.push("t-wrap-high".to_string()); }
@@ -204,4 +209,25 @@ pub fn rare_keygen_seeds(ctx: &Ctx, p: &refimpl::Params, n_scan: usize) -> Vec<R
     let v: Vec<Value> = all.iter().map(|r| json!({"xi": hex(&r.xi), "tags": r.tags})).collect();
     let _ = std::fs::write(&cache, serde_json::to_string(&v).unwrap());
     all
+}
+
+
+/// `rareseeds` stage: print rare key-generation seeds (optionally for constant-time test mode) as JSON
+pub fn rareseeds_stage(ctx: &Ctx) -> StageOut {
+    let mut acc = Acc::new();
+    let n = ctx.opt_u64("n", 24_000) as usize;
+    let ctest = ctx.opt_u64("ctest", 0) != 0;
+    let mut out = serde_json::Map::new();
+    for &set in &ctx.sets {
+        let p = refimpl::params(set);
+        let seeds = rare_keygen_seeds_mode(ctx, p, n, ctest);
+        acc.evals(n as u64);
+        let wraps: Vec<Value> = seeds.iter().filter(|r| r.tags.iter().any(|t| t.starts_with("t-wrap"))).map(|r| json!({"xi": hex(&r.xi), "tags": r.tags})).collect();
+        for _ in 0..wraps.len() {
+            acc.distinct_enumerated += 1;
+        }
+        let _ = out.insert(set.to_string(), Value::Array(wraps));
+    }
+    acc.sample(Value::Object(out));
+    StageOut::new("rareseeds", "instrumented-reference scan for rare key-generation events", false, acc)
 }
